@@ -33,7 +33,7 @@ from mc.isolate import isolated_map
 PROPERTY = "C06"
 LEVEL = "model_checking"
 ISOLATE_CASES = True     # every case starts from a pristine process: verdicts do not depend on which case ran before
-ENGINES = ["E3-explicit-state-history-search"]
+ENGINES = ["E3-explicit-state-history-search", "E4-schedule-exploration"]
 TECHNIQUE = ("explicit-state breadth-first search over interleaved operation histories on several live screen "
              "objects and NumPy's global RNG, each reached state compared bit-for-bit with a reference table "
              "whose every entry was generated in its own pristine process")
